@@ -77,13 +77,14 @@ def _gen_traces(ROOT, WORK, name, seed, sh, profiles, count, extra=""):
 
 def c13_extra(ROOT, tier, seed, sh, WORK):
     """Determinism, implementation against implementation: the same history replayed in
-    separate processes (one with GOGC=1 and a goroutine forcing collections) and twice in
-    one process must print byte-identical raw output (handles, iteration order, events)."""
+    separate processes (one with GOGC=1 and a goroutine forcing collections, one restricted
+    to a single processor) and twice in one process must print byte-identical raw output
+    (handles, iteration order, events)."""
     import os, subprocess
     from concurrent.futures import ThreadPoolExecutor
     out = {'violations': []}
     count = 40 if tier == 'quick' else 500
-    files = _gen_traces(ROOT, WORK, 'c13', seed, sh, ['mixed', 'rel', 'cache', 'batch', 'reset', 'handles'], count)
+    files = _gen_traces(ROOT, WORK, 'c13', seed, sh, ['mixed', 'rel', 'cache', 'batch', 'reset', 'handles', 'manynodes'], count)
     env = dict(os.environ, GOGC='1')
     H = os.path.join(ROOT, 'harness', 'harness')
 
@@ -91,10 +92,13 @@ def c13_extra(ROOT, tier, seed, sh, WORK):
         a = subprocess.run([H, 'replay', '-raw', f], capture_output=True, text=True).stdout
         b = subprocess.run([H, 'replay', '-raw', '-gc', f], capture_output=True, text=True, env=env).stdout
         c = subprocess.run([H, 'replay', '-raw', '-twice', f], capture_output=True, text=True).stdout
+        d = subprocess.run([H, 'replay', '-raw', f], capture_output=True, text=True, env=dict(os.environ, GOMAXPROCS='1')).stdout
         halves = c.split("=====\n")
         bad = None
         if a != b:
             bad = ('other process with forced GC', a, b)
+        elif a != d:
+            bad = ('other process restricted to one processor (GOMAXPROCS=1)', a, d)
         elif len(halves) != 2 or halves[0] != halves[1]:
             bad = ('second world in the same process', halves[0], halves[-1])
         elif halves[0] != a:
@@ -113,7 +117,7 @@ def c13_extra(ROOT, tier, seed, sh, WORK):
             open(rp, 'w').write(f"# property C13: output differs ({what}) at line {k}:\n#  run 1: {xl[k] if k < len(xl) else '<end>'}\n#  run 2: {yl[k] if k < len(yl) else '<end>'}\n" + open(f).read())
             out['violations'].append({'replay': rp, 'cmd': 'replay', 'classes': ['nondeterminism'], 'chk': what})
     out['determinism_histories'] = len(files)
-    out['determinism_replays'] = 4 * len(files)
+    out['determinism_replays'] = 5 * len(files)
     out['determinism_ops'] = nops
     return out
 
@@ -323,9 +327,9 @@ PROPS = {
     'C10': {
         'budget': _merge(_p('illegal', 220, 4000), _p('mixed', 60, 1000)),
         'projection': [(r'panic_missing:.*', None)],
-        'chk': [r'state changed'],
+        'chk': [r'state changed', r'did not panic'],
         'own_ops': {'XCHG', 'RM', 'RELSET', 'RELXCHG', 'SET', 'ASSIGN', 'BNEW', 'NEW'},
-        'rule': "seeded histories (profile illegal): 40 % of the operations come from the illegal-argument stream (16 classes); for each, the model must panic too, and the implementation's full observable digest before and after a failed single-entity call must be equal",
+        'rule': "seeded histories (profile illegal): 40 % of the operations come from the illegal-argument stream (16 classes); for each, the model must panic too, and the implementation's full observable digest before and after a failed single-entity call must be equal; out-of-range EntityAt / Step(0) on every scanned query (plain, cached, batch) must panic",
     },
     'C11': {
         'budget': _merge(_p('events', 220, 4000), _p('mixed', 60, 1000, "")),
@@ -388,11 +392,11 @@ PROPS = {
     'C19': {
         'budget': _merge(_p('mixed', 40, 400), _p('dump', 80, 800)),
         'projection': [],
-        'chk': [r'changed world'],
+        'chk': [r'changed world', r'another world'],
         'own_ops': {'QSCAN', 'RM', 'XCHG', 'NEW'},
         'extra': c19_extra,
         'level': 'proof',
-        'rule': "groups of 8 histories replayed concurrently (one goroutine, one set of worlds each, different registration orders) in a -race build; each output compared with its solo replay; race detector reports counted",
+        'rule': "groups of 8 histories replayed concurrently (one goroutine, one set of worlds each, different registration orders) in a -race build; each output compared with its solo replay; race detector reports counted; worlds of one process share one Dispatch template value and every listener checks that the events it receives come from its own world",
     },
     'C20': {
         'budget': _merge(_p('res', 220, 4000)),
